@@ -1,4 +1,106 @@
-import EE.Model.Program
+import EE.Lemmas.StdInv
+/-! # C04 — runtime faults surface as Err: no panic, no silently wrapped number
+
+Outcomes: `ok`, `err`, `panic`, `deadlock`, `hang`, and `unmodelled` (decimal results in the zone
+where `rust_decimal` rounds: the model makes no claim about the *value* there, but the outcome is
+still a value or an error in the library — see DESIGN §3.2). `NoFault` = not panic, not deadlock,
+not hang. The model has no "wrapped" outcome at all: every bit operation is defined on the
+mathematical integer (via `BitVec 64`), and a shift count outside 0..=63 is an `err`; that the
+release build agrees is checked by running the operand grid in both build profiles. -/
 namespace EE.Props.C04
-theorem placeholder : True := trivial
+open EE
+
+/-- Every built-in handler returns a value or an `Err` for every operand: never a panic. -/
+theorem infix_handlers (op : Name) (l r : Value) : (builtinInfix op l r).NoFault := builtinInfix_noFault op l r
+theorem prefix_handlers (op : Name) (v : Value) : (builtinPrefix op v).NoFault := builtinPrefix_noFault op v
+theorem postfix_handlers (op : Name) (v : Value) : (builtinPostfix op v).NoFault := builtinPostfix_noFault op v
+theorem functions (name : Name) (args : List Value) : (builtinFn name args).NoFault := builtinFn_noFault name args
+
+/-! The faults the property names, one lemma each. -/
+
+theorem div_by_zero (a b : Dec) (hb : b.isZero = true) : Dec.div a b = .err .divideByZero := by
+  simp [Dec.div, hb]
+theorem rem_by_zero (a b : Dec) (hb : b.isZero = true) : Dec.rem a b = .err .divideByZero := by
+  simp [Dec.rem, hb]
+theorem div_handler_zero (a b : Dec) (hb : b.isZero = true) :
+    builtinInfix ['/'] (.num a) (.num b) = .err .divideByZero ∧ builtinInfix ['%'] (.num a) (.num b) = .err .divideByZero ∧
+    builtinInfix ['/', '='] (.num a) (.num b) = .err .divideByZero ∧ builtinInfix ['%', '='] (.num a) (.num b) = .err .divideByZero := by
+  refine ⟨?_, ?_, ?_, ?_⟩ <;>
+    simp [builtinInfix, infixClass, decNames, intNames, cmpNames, decBin, Value.decimal, decOp, decOpClass, div_by_zero _ _ hb, rem_by_zero _ _ hb]
+
+theorem normNS_spec (n : Int) : ∀ s : Nat, (Dec.normNS n s).2 ≤ s ∧ n = (Dec.normNS n s).1 * (10 : Int) ^ (s - (Dec.normNS n s).2)
+  | 0 => by simp [Dec.normNS]
+  | s + 1 => by
+    unfold Dec.normNS
+    split
+    · rename_i h
+      have ih := normNS_spec (n / 10) s
+      refine ⟨by omega, ?_⟩
+      have h10 : n = n / 10 * 10 := by omega
+      have e : s + 1 - (Dec.normNS (n / 10) s).2 = (s - (Dec.normNS (n / 10) s).2) + 1 := by omega
+      rw [e, Int.pow_succ, ← Int.mul_assoc, ← ih.2]
+      exact h10
+    · simp
+
+/-- Decimal overflow: when the exact result's integer part does not fit 96 bits the outcome is
+`err numberOverflow` — never a wrapped or truncated number. -/
+theorem overflow_is_err (n : Int) (s : Nat) (h : mantLimit ≤ n.natAbs / 10 ^ s) :
+    Dec.fit n s = .err .numberOverflow := by
+  have hs := normNS_spec n s
+  unfold Dec.fit
+  generalize Dec.normNS n s = p at hs
+  obtain ⟨n', s'⟩ := p
+  simp only [] at hs ⊢
+  have hbig : mantLimit ≤ n'.natAbs := by
+    have hn : n.natAbs = n'.natAbs * 10 ^ (s - s') := by
+      have := congrArg Int.natAbs hs.2
+      rw [Int.natAbs_mul, Int.natAbs_pow] at this
+      simpa using this
+    have h1 : n.natAbs / 10 ^ s ≤ n'.natAbs := by
+      rw [hn]
+      have hpow : (10:Nat) ^ s = 10 ^ (s - s') * 10 ^ s' := by
+        rw [← Nat.pow_add]; congr 1; omega
+      rw [hpow, ← Nat.div_div_eq_div_mul, Nat.mul_div_cancel _ (Nat.pow_pos (by decide))]
+      exact Nat.div_le_self _ _
+    omega
+  have : ¬ (s' ≤ maxScale ∧ n'.natAbs < mantLimit) := by omega
+  simp [this, h]
+
+/-- A shift count outside 0..=63 is an error, for both shifts and every left operand. -/
+theorem shift_count (a b : Int) (h : b < 0 ∨ 63 < b) :
+    intOp ['<', '<'] a b = .err .invalidShiftCount ∧ intOp ['>', '>'] a b = .err .invalidShiftCount := by
+  have : ¬ (0 ≤ b ∧ b ≤ 63) := by omega
+  simp [intOp, intOpClass, this]
+
+/-- An aggregate with no arguments: `min()` / `max()` are errors; `sum()` = 0, `mul()` = 1. -/
+theorem empty_aggregates :
+    builtinFn ['m', 'i', 'n'] [] = .err .paramInvalid ∧ builtinFn ['m', 'a', 'x'] [] = .err .paramInvalid ∧
+    builtinFn ['s', 'u', 'm'] [] = .ok (.num Dec.zero) ∧ builtinFn ['m', 'u', 'l'] [] = .ok (.num Dec.one) := by
+  refine ⟨?_, ?_, ?_, ?_⟩ <;> rfl
+
+/-- Type mismatches are errors: a bit operator on a non-number, arithmetic on a non-number. -/
+theorem type_mismatch_examples (v : Value) (hv : ∀ d, v ≠ .num d) (w : Value) :
+    (builtinInfix ['+'] v w).isErr = true ∧ (builtinInfix ['|'] v w).isErr = true ∧
+    (builtinInfix ['<'] v w).isErr = true ∧ (builtinPrefix ['-'] v).isErr = true ∧ (builtinPostfix ['+', '+'] v).isErr = true := by
+  cases v <;> first
+    | exact absurd rfl (hv _)
+    | simp [builtinInfix, infixClass, decNames, intNames, cmpNames, decBin, intBin, Value.decimal, Value.integer,
+        builtinPrefix, prefixClass, builtinPostfix, postfixClass, Res.bind, Res.isErr]
+
+/-- `execute` with the built-in handlers (and any user handlers that themselves return): the
+evaluation of every tree from a clean world returns a value or an `Err`, and leaves the world clean. -/
+theorem exec_noFault {σ : Type} (userInv : Nat → List Value → EngineM σ Value)
+    (hu : ∀ id args, Keeps World.Clean (fun f => f = Fault.none) (userInv id args)) (t : AST) (w : World σ) (hw : w.Clean) :
+    (exec (stdInv userInv) t w).1.fault = .none ∧ (exec (stdInv userInv) t w).2.Clean := by
+  have := Keeps.exec (A := fun f => f = Fault.none) rfl stable_clean (stdInv_keeps (A := fun f => f = Fault.none) rfl userInv hu) t w hw
+  exact ⟨this.2, this.1⟩
+
+/-! Non-vacuity / witnesses: the faults evaluate to errors in the model (kernel-checked). -/
+example : builtinInfix ['/'] (.num ⟨false, 1, 0⟩) (.num ⟨false, 0, 0⟩) = .err .divideByZero := by rfl
+example : builtinInfix ['<', '<'] (.num ⟨false, 1, 0⟩) (.num ⟨false, 64, 0⟩) = .err .invalidShiftCount := by rfl
+example : builtinInfix ['<', '<'] (.num ⟨false, 1, 0⟩) (.num ⟨false, 63, 0⟩) = .ok (.num ⟨true, 9223372036854775808, 0⟩) := by rfl
+example : builtinInfix ['+'] (.num ⟨false, 79228162514264337593543950335, 0⟩) (.num ⟨false, 1, 0⟩) = .err .numberOverflow := by rfl
+example : builtinInfix ['|'] (.num ⟨false, 15, 1⟩) (.num ⟨false, 1, 0⟩) = .err .invalidInteger := by rfl
+example : builtinInfix ['|'] (.num ⟨false, 30, 1⟩) (.num ⟨false, 1, 0⟩) = .ok (.num ⟨false, 3, 0⟩) := by rfl
+
 end EE.Props.C04
